@@ -594,9 +594,15 @@ impl Property for C10 {
                 continue;
             }
             rc.mark(sub);
-            let Some(m) = f.apply(&base) else { continue };
-            out.fault(f.kind());
             out.keys.push(hash_str(&format!("{tag}|{i}")));
+            let Some(m) = f.apply(&base) else {
+                // counted all the same: whether a fault happens to be a no-op depends on bytes
+                // (dates, signatures over them) that differ from one execution to the next
+                out.evals += 1;
+                out.probe("fault-was-a-no-op");
+                continue;
+            };
+            out.fault(f.kind());
             let hint = if i % 5 == 4 { wrong_hint } else { fmt.mime() };
             run_one(&mut out, sub, &tag, entry, hint, &m, &[], &f.describe());
         }
